@@ -79,6 +79,18 @@ func NewVoxelSDF3(s SDF3, meshCells int, progress chan float64) SDF3 {
 
 // Evaluate returns the minimum distance to a VoxelSDF3.
 func (m *VoxelSDF3) Evaluate(p v3.Vec) float64 {
+	// There are no voxels outside the bounding box (the missing corners would read as 0
+	// and give negative values far away from the object). Use the value at the nearest
+	// point of the box plus the distance to it.
+	if !m.bb.Contains(p) {
+		q := p.Clamp(m.bb.Min, m.bb.Max)
+		return m.evaluateVoxel(q) + p.Sub(q).Length()
+	}
+	return m.evaluateVoxel(p)
+}
+
+// evaluateVoxel interpolates the voxel corner values for a point within the bounding box.
+func (m *VoxelSDF3) evaluateVoxel(p v3.Vec) float64 {
 	// Find the voxel's {0,0,0} corner quickly and compute p's displacement
 	voxelSize := m.bb.Size().Div(conv.V3iToV3(m.numVoxels))
 	voxelStartIndex := conv.V3ToV3i(p.Sub(m.bb.Min).Div(voxelSize))
